@@ -27,6 +27,8 @@ fn profile(rng: &mut Rng) -> Profile {
     p.p_mine = (1, 10);
     p.commit_after_init = (2, 3);
     p.w_spin = 0;
+    p.signed_chaos = rng.chance(1, 2);
+    p.len_variety = rng.chance(1, 3);
     p
 }
 
